@@ -897,6 +897,77 @@ def rule_r6(rep, idxs):
             'main returns runCatchExceptions(...) directly' if ok else 'the driver status is not returned by main')
 
 
+EXITS = ('exit', '_Exit', 'quick_exit')
+
+
+def rule_r12(rep, idxs):
+    rep.rule('R12', 'a direct exit from main() outside the --help branch is an error exit: every std::exit reached from main (directly or '
+             'through a usage()/help() helper, the status followed through the helper\'s parameter and its default) that does not sit '
+             'under the test for -h/--help passes a non-zero status (e.g. "a file must be specified" produces no output, so it must '
+             'not report success)', floor=5)
+    for tu in MAINS:
+        ix = idxs[tu]
+        m = [f for f in ix.all_funcs() if f.name == 'main' and f.body is not None and not f.cls][0]
+        parents = {}
+        for a in walk(m.body):
+            for b in children(a):
+                parents[id(b)] = a
+
+        def help_branch(n):
+            x = n
+            while id(x) in parents:
+                p_ = parents[id(x)]
+                if p_['kind'] == 'IfStmt' and children(p_)[0] is not x and len(children(p_)) > 1 and any(z is x for z in walk(children(p_)[1])):
+                    lits = [cast.string_lit(c) for c in cast.calls_in(children(p_)[0]) if callee_of(c)[1] == 'strcmp']
+                    if any(l in ('-h', '--help') for l in lits):
+                        return True
+                x = p_
+            return False
+
+        def status_of_call(c, depth=0):
+            """Exit statuses a call can end the process with: list of (value or None, description)."""
+            kind, name, did, obj = callee_of(c)
+            if name in EXITS:
+                a = cast.call_args(c)
+                return [(cast.const_int(a[0], ix) if a else None, name)]
+            g = ix.func_by_id.get(did) if did else None
+            if g is None or g.body is None or depth > 2 or g is m:
+                return []
+            out = []
+            for c2 in cast.calls_in(g.body):
+                if callee_of(c2)[1] in EXITS:
+                    a2 = cast.call_args(c2)
+                    v = cast.const_int(a2[0], ix) if a2 else None
+                    if v is None and a2:
+                        pid = cast.decl_ref(a2[0])
+                        for i_, prm in enumerate(g.params):
+                            if prm.get('id') == pid:
+                                args = cast.call_args(c)
+                                if i_ < len(args) and args[i_].get('kind') != 'CXXDefaultArgExpr':
+                                    v = cast.const_int(args[i_], ix)
+                                else:
+                                    dflt = [k for k in children(prm) if 'kind' in k]
+                                    v = cast.const_int(dflt[-1], ix) if dflt else None
+                    out.append((v, '%s -> %s' % (g.name, callee_of(c2)[1])))
+            return out
+        n = 0
+        for c in cast.calls_in(m.body):
+            sts = status_of_call(c)
+            for v, how in sts:
+                n += 1
+                key = '%s:main:%s@%s' % (tu, how, pos(c).split(':')[-1])
+                if help_branch(c):
+                    rep.add('R12', key, True, pos(c) + ' main(%s)' % tu, 'exit on the --help path (status %r)' % v, nontrivial=False)
+                elif v is None:
+                    rep.undecided('R12', key, 'exit status is not a constant', pos(c) + ' main(%s)' % tu)
+                else:
+                    rep.add('R12', key, v != 0, pos(c) + ' main(%s)' % tu,
+                            'error exit with status %d' % v if v != 0 else
+                            'the process exits with status 0 on an error path (no --help requested): no output was produced, yet success is reported')
+        if n == 0:
+            rep.add('R12', '%s:main:no-direct-exit' % tu, True, pos(m.node) + ' main(%s)' % tu, 'main never exits other than by returning', nontrivial=False)
+
+
 def run(rep, tier):
     idxs = {tu: cast.load(tu) for tu in MAINS}
     rep.trusted = ['clang 14 AST (resolved callees, types)', 'frozen tables ALLOWED_WRITERS / ACCEPTED_LATE_THROWS in hexsa/rules/c14.py']
@@ -912,6 +983,14 @@ def run(rep, tier):
     rule_r8(rep, idxs)
     rule_r9(rep, idxs)
     rule_r11(rep, idxs)
+    rule_r12(rep, idxs)
+    # R13: a formatting exception in the middle of a run replaces the program's exit status by 1
+    from .. import robust
+    rep.rule('R13', 'every boost::format string in the simulator, the drivers, the compiler and the assembler is fed exactly as many arguments as '
+             'it has directives (a mismatch throws in the middle of the run: hexsim -t would end with status 1 instead of the program\'s '
+             'exit value, a diagnostic would be replaced by another error)', floor=30)
+    for tu in MAINS:
+        robust.rule_format_arity(rep, 'R13', idxs[tu], ('hexsim::', 'hex::', 'xcmp::', 'hexasm::', 'hexutil::'), tu)
     # R10: "hexsim's and xrun's exit status is the program's exit value": the loader must not turn a valid image away (import of C02-R2)
     from .. import report as _report
     from . import c02
